@@ -48,10 +48,35 @@ type Message struct {
 	Fields  []Field
 	Capture bool // (pico.message).capture_unrecognized_fields
 	Always  bool // (pico.message).always_present
+	// Parent is the Name of the message this one is declared INSIDE ("" = top level). Name is always
+	// the Go type name, which for a nested declaration is Parent + "_" + the proto name.
+	Parent string
+}
+
+// ProtoName is the name in the .proto declaration (without the enclosing messages).
+func (m *Message) ProtoName() string {
+	if m.Parent == "" {
+		return m.Name
+	}
+	return strings.TrimPrefix(m.Name, m.Parent+"_")
+}
+
+// ProtoPath maps a Go type name of this file ("Outer_Inner") to its dotted proto path ("Outer.Inner").
+func (f *File) ProtoPath(goName string) string {
+	if m := f.Msg(goName); m != nil && m.Parent != "" {
+		return f.ProtoPath(m.Parent) + "." + m.ProtoName()
+	}
+	for i := range f.Enums {
+		if f.Enums[i].Name == goName && f.Enums[i].Parent != "" {
+			return f.ProtoPath(f.Enums[i].Parent) + "." + strings.TrimPrefix(goName, f.Enums[i].Parent+"_")
+		}
+	}
+	return goName
 }
 
 // Enum is one enum declaration.
 type Enum struct {
+	Parent string // Name of the enclosing message ("" = top level); Name = Parent + "_" + proto name
 	Name   string
 	Names  []string
 	Values []int32
